@@ -9,7 +9,7 @@ import ast
 
 from ..boolx import BoolEval, Unknown, show, valuations
 from ..model import AnalysisError
-from ..util import dotted, norm, short, walk_no_nested
+from ..util import flatten_boolop, dotted, norm, short, walk_no_nested
 from ..visitors import totality
 from .common_children import children_rule
 from .common_fields import ATOMS, SER_VISITOR, SMETH, FieldModel, consistent
@@ -214,6 +214,24 @@ def check(ctx):
     ctx.rule("C04.R7", "a method / property registered as serialized method or serializer is invoked through the instance, by name: an override in a subclass is what gets serialized", floor=3)
     late_binding_rule(ctx, "C04.R7")
 
+    # ---------------- R10: every method converter is late-bound, whatever the way it was declared
+    ctx.rule("C04.R10", "resolve_conversion wraps every converter that is a method with method_wrapper (lookup of the method on the instance, by name) - also when the conversion states its source explicitly: an override of the method in a subclass is what serializes the subclass", floor=1)
+    rc10 = model.func("apischema.conversions.conversions.resolve_conversion")
+    from ..pathcond import parents_of as _po10, path_condition as _pc10
+    pm10 = _po10(rc10.node)
+    wraps10 = [c for c in ast.walk(rc10.node) if isinstance(c, ast.Call) and dotted(c.func) == "method_wrapper"]
+    ctx.require(len(wraps10) == 1, "resolve_conversion: method_wrapper(...) not found")
+    stmt10 = wraps10[0]
+    while not isinstance(stmt10, ast.stmt):
+        stmt10 = pm10[stmt10]
+    cond10 = _pc10(rc10.node, stmt10, pm10)
+    conj10 = [norm(x) for x in flatten_boolop(cond10, ast.And)] if cond10 is not None else []
+    extra10 = [c for c in conj10 if c not in ("is_method(conversion.converter)", "True") and "is_method(" not in c and "isinstance(converter, property)" not in c]
+    disj = any(" or " in c for c in conj10)
+    ctx.check("is_method(conversion.converter)" in conj10 and not extra10 and not disj, "C04.R10", f"{rc10.qualname}:wrap", None,
+              f"method_wrapper is applied under `{norm(cond10) if cond10 is not None else 'no condition'}`: a method converter given with an explicit source (`Conversion(Shape.dump, source=Shape)`) keeps the raw base-class function, which is called on the instances of the subclasses whatever they override",
+              rc10, stmt10, detail="if is_method(conversion.converter): ... converter=method_wrapper(conversion.converter)")
+
     # ---------------- R8: metadata given through Annotated
     ctx.rule("C04.R8", "field metadata can be given through Annotated[...]: a key that ObjectField reads from the field's own `metadata` only must be one the visitors consume when they visit the Annotated type itself (conversion, schema, validators); every other key (skip, ...) is read through `full_metadata`, or it is silently ignored when written in Annotated", floor=3)
     consumed = set()
@@ -355,6 +373,7 @@ def passthrough_rule(ctx):
 
 
 def mutants(mb):
+    mb.add_text("method-converter-wrapped-only-without-source", "apischema/conversions/conversions.py", "        if conversion.source is None:\n            conversion = replace(conversion, source=method_class(conversion.converter))\n        conversion = replace(conversion, converter=method_wrapper(conversion.converter))\n", "        if conversion.source is None:\n            conversion = replace(conversion, source=method_class(conversion.converter))\n            conversion = replace(conversion, converter=method_wrapper(conversion.converter))\n", "C04.R10", "wrap")
     mb.add_text("is-union-of-not-annotated-transparent", "apischema/utils.py", "    return tp == of or (is_union(get_origin_or_type2(tp)) and of in get_args2(tp))\n", "    return tp == of or (is_union(get_origin_or_type(tp)) and of in get_args(tp))\n", "C04.R9", "is_union_of")
     mb.add_text("skip-own-metadata-only", "apischema/objects/fields.py", "        return self.full_metadata.get(SKIP_METADATA, SkipMetadata())\n", "        return self.metadata.get(SKIP_METADATA, SkipMetadata())\n", "C04.R8", "SKIP_METADATA")
     MW = "apischema/methods.py"
